@@ -13,6 +13,7 @@ package interp
 import (
 	"fmt"
 	"go/token"
+	"go/types"
 	"runtime/debug"
 	"sort"
 )
@@ -478,6 +479,69 @@ func init() {
 	externals["(*sync.RWMutex).Unlock"] = unlock
 	externals["(*sync.RWMutex).RLock"] = rlock
 	externals["(*sync.RWMutex).RUnlock"] = runlock
+	// ---- sync.Map: an association list per receiver; concurrent access is
+	// synchronised by definition (no race reports), lookups compare keys
+	// with interface equality
+	smapOf := func(fr *frame, recv value) *syncMapState {
+		p := recv.(*value)
+		if fr.i.syncMaps == nil {
+			fr.i.syncMaps = map[*value]*syncMapState{}
+		}
+		m := fr.i.syncMaps[p]
+		if m == nil {
+			m = &syncMapState{}
+			fr.i.syncMaps[p] = m
+		}
+		return m
+	}
+	smapFind := func(fr *frame, m *syncMapState, key value) int {
+		anyT := types.NewInterfaceType(nil, nil)
+		for i := range m.keys {
+			switch eq := fr.equalsV(anyT, m.keys[i], key).(type) {
+			case bool:
+				if eq {
+					return i
+				}
+			case SymBool:
+				if fr.i.ex.Branch(eq.T) {
+					return i
+				}
+			}
+		}
+		return -1
+	}
+	externals["(*sync.Map).Load"] = func(fr *frame, args []value) value {
+		m := smapOf(fr, args[0])
+		if i := smapFind(fr, m, args[1]); i >= 0 {
+			return tuple{m.vals[i], true}
+		}
+		return tuple{iface{}, false}
+	}
+	externals["(*sync.Map).Store"] = func(fr *frame, args []value) value {
+		m := smapOf(fr, args[0])
+		if i := smapFind(fr, m, args[1]); i >= 0 {
+			m.vals[i] = args[2]
+			return nil
+		}
+		m.keys, m.vals = append(m.keys, args[1]), append(m.vals, args[2])
+		return nil
+	}
+	externals["(*sync.Map).LoadOrStore"] = func(fr *frame, args []value) value {
+		m := smapOf(fr, args[0])
+		if i := smapFind(fr, m, args[1]); i >= 0 {
+			return tuple{m.vals[i], true}
+		}
+		m.keys, m.vals = append(m.keys, args[1]), append(m.vals, args[2])
+		return tuple{args[2], false}
+	}
+	externals["(*sync.Map).Delete"] = func(fr *frame, args []value) value {
+		m := smapOf(fr, args[0])
+		if i := smapFind(fr, m, args[1]); i >= 0 {
+			m.keys = append(m.keys[:i:i], m.keys[i+1:]...)
+			m.vals = append(m.vals[:i:i], m.vals[i+1:]...)
+		}
+		return nil
+	}
 	externals["(*sync.WaitGroup).Add"] = func(fr *frame, args []value) value {
 		s := fr.i.sched
 		w := s.wg(args[0].(*value))
@@ -512,4 +576,8 @@ func init() {
 		s.cur.vc = joinVC(s.cur.vc, w.vc)
 		return nil
 	}
+}
+
+type syncMapState struct {
+	keys, vals []value
 }
